@@ -306,16 +306,13 @@ fn rounded_tie_index_agreement<F: Float>(c: &mut Case, f32_run: bool) -> Outcome
             bail!("C08/optics/panic-or-error", {"why": e, "data": data_json(&x), "tolerance": f64_of(eps)});
         }
     }
-    // The linear scan and the k-d tree apply the same point-level predicate (reduced distance against
-    // the reduced tolerance), so they must agree exactly even on rounded ties. The ball tree prunes
-    // with rounded bounds, which can drop a point that sits within a rounding error of the radius
-    // (its range query is then not symmetric at such a tie): that is floating-point noise, not an
-    // index dependence the property could forbid, and is not judged here.
+    // All three indices apply the same point-level predicate (reduced distance against the reduced
+    // tolerance); tree bounds only decide which points are looked at and must never prune a point the
+    // predicate accepts. So the results agree exactly even on rounded ties. (Before fix 83fa6eb the
+    // ball tree's rounded sphere bound did prune such points; the difference was first taken for
+    // floating-point noise and only counted here - it is judged now.)
     let names = ["linear", "kd-tree", "ball-tree"];
-    if db[2] != db[0] || op[2] != op[0] {
-        c.count("ball-tree-differs-on-a-rounded-tie (not judged)");
-    }
-    for k in 1..2 {
+    for k in 1..3 {
         ensure!(db[k] == db[0], "C08/xindex/dbscan-rounded-tie-labels-differ",
             {"data": data_json(&x), "metric": format!("{m:?}"), "min_points": mp, "tolerance": f64_of(eps),
              "linear": format!("{:?}", db[0]), names[k]: format!("{:?}", db[k])});
